@@ -53,7 +53,7 @@ def setup():
 def plan(tier, seed):
     nmax = 5 if tier == "quick" else 7
     nmaps = len(MAPS)
-    lays = (0, 1, 2, 3, 4)
+    lays = (0, 1, 2, 3, 4, 5, 6)
     shards = [("grid", mi, n, lay) for mi in range(nmaps) for n in range(1, nmax + 1) for lay in lays] + [("absent",), ("many",)] + [("meta", k) for k in range(len(SONGS))] + [("far",)]
     return dict(shards=shards, bounds=dict(max_notes=nmax, tick_alphabet=list(TICKS), maps=[list(map(list, m)) for m in MAPS[:nmaps]], sustain_layouts=len(lays)), budget_s=600)
 
@@ -200,7 +200,13 @@ def run_shard(shard, ctx):
             sus[0] = ticks[-1] - ticks[0] + 7
         elif lay == 2:  # every note sustained into (or past) the next one
             sus = [9 + 3 * i for i in range(n)]
+        elif lay in (5, 6):  # chords with one unsustained and one held lane (the last note's end is the held lane's)
+            sus = [11 + 3 * i if i % 2 == n % 2 else 40 for i in range(n)]
         body = ["%d = N %d %d" % (t, i % 5, s) for i, (t, s) in enumerate(zip(ticks, sus))]
+        if lay == 5:  # unsustained lane written first (lower lane), held lane second
+            body = [ln for i, (t, s_) in enumerate(zip(ticks, sus)) for ln in ("%d = N %d 0" % (t, i % 3), "%d = N %d %d" % (t, 3 + i % 2, s_))]
+        if lay == 6:  # held lane written first
+            body = [ln for i, (t, s_) in enumerate(zip(ticks, sus)) for ln in ("%d = N %d %d" % (t, i % 3, s_), "%d = N %d 0" % (t, 3 + i % 2))]
         if lay == 4:  # flag lines carrying lengths far beyond every note (they are not sustains: C03)
             body = [ln for i, (t, ln0) in enumerate(zip(ticks, body)) for ln in ([ln0, "%d = N 6 %d" % (t, 60 + i)] + (["%d = N 5 %d" % (t, 90)] if i else []))]
         if lay == 3:  # note lines NOT in tick order (accepted while they stay inside one tempo region)
